@@ -148,6 +148,39 @@ theorem slab_open (M A B : Nat) (F : Int → Int → Int → Nat)
     simp only [e]
     omega
 
+/-- **Slab tiled by dominoes** (rotated lattices).  Layers `k < A`; in layer `k` the sites `2m`
+    (`0 ≤ m ≤ B`) of one parity class `m % 2 = e` each cover the two positions `2m ± 1` of the
+    line `g k` (which vanishes just outside `1 … 2B - 1`) and the two vertical rungs `W k m`,
+    `W (k+1) m` below and above (which vanish at the bottom `k = 0` and at the top `k = A`).  If
+    the constraint of every site is even, the total of all lines is even. -/
+theorem slab_domino (e : Nat) (he : e < 2) (A B : Nat) (g : Nat → Int → Nat) (W : Nat → Nat → Nat)
+    (hg0 : ∀ k, k < A → g k (-1) = 0) (hgB : ∀ k, k < A → g k (2 * B + 1) = 0)
+    (hW0 : ∀ m, m < B + 1 → W 0 m = 0) (hWA : ∀ m, m < B + 1 → W A m = 0)
+    (hc : ∀ k m, k < A → m < B + 1 → m % 2 = e →
+      (g k (2 * m - 1) + g k (2 * m + 1) + W k m + W (k + 1) m) % 2 = 0) :
+    rsum2 A B (fun k j => g k (2 * j + 1)) % 2 = 0 := by
+  have hC : rsum2 A (B + 1) (fun k m =>
+      (if m % 2 = e then g k (2 * m - 1) + g k (2 * m + 1) else 0) +
+        ((if m % 2 = e then W k m else 0) + (if m % 2 = e then W (k + 1) m else 0))) % 2 = 0 := by
+    apply rsum2_even
+    intro k m hk hm
+    by_cases h : m % 2 = e
+    · have := hc k m hk hm h
+      simp only [if_pos h]
+      omega
+    · simp only [if_neg h]
+  rw [rsum2_add, rsum2_add] at hC
+  have hD : rsum2 A (B + 1) (fun k m => if m % 2 = e then g k (2 * m - 1) + g k (2 * m + 1) else 0) =
+      rsum2 A B (fun k j => g k (2 * j + 1)) :=
+    rsum_congr A (fun k hk => rsum_pairs e he B (g k) (hg0 k hk) (hgB k hk))
+  have hE : rsum2 A (B + 1) (fun k m => if m % 2 = e then W (k + 1) m else 0) =
+      rsum2 A (B + 1) (fun k m => if m % 2 = e then W k m else 0) :=
+    rsum_shift_open (fun k => rsum (B + 1) (fun m => if m % 2 = e then W k m else 0)) A
+      (rsum_zero (B + 1) (fun m hm => by rw [hW0 m hm]; simp))
+      (rsum_zero (B + 1) (fun m hm => by rw [hWA m hm]; simp))
+  rw [hD, hE] at hC
+  omega
+
 /-- **Ladder with a `+1` wrap**: lines `F 0, …, F (M-1)` of `L` sites, rungs `G i`; the `j`-th
     constraint of rung line `i` involves `F i j`, `F (i+1) j`, `G i j` and `G i (j+1)`
     (cyclically). -/
